@@ -12,6 +12,14 @@ VERIF = os.path.dirname(os.path.dirname(os.path.abspath(__file__)))
 NEEDS = json.load(open(os.path.join(VERIF, "seeded", "needs.json")))
 
 
+# seeded changes that no longer break their property on the repaired tree (their demonstration passes with the patch applied):
+# the check must be SILENT on them
+NEUTRALISED = {
+    "C16-2": "neutralised by the repair 3a000cd: keyword-argument decimals are now formatted BEFORE the request is signed, so "
+             "re-formatting them after signing changes nothing (demo.py passes with the patch on the repaired tree)",
+}
+
+
 def run_mutant(patch, prop):
     p = subprocess.run([os.path.join(VERIF, "tools", os.environ.get("VERIF_MUTANT_RUNNER", "mutant_wt.sh")), patch, prop], capture_output=True, text=True)
     sigs = []
@@ -61,6 +69,16 @@ def main():
         with open(os.path.join(d, "meta.json"), "w") as f:
             json.dump(meta, f, indent=1)
             f.write("\n")
+        if name in NEUTRALISED:
+            meta["check"]["detected"] = None
+            meta["neutralised"] = NEUTRALISED[name]
+            with open(os.path.join(d, "meta.json"), "w") as f:
+                json.dump(meta, f, indent=1)
+                f.write("\n")
+            rows.append((name, prop, "silent, as it should be" if rc == 0 else f"ALARM on a neutralised change (exit {rc})",
+                         NEUTRALISED[name]))
+            print(rows[-1][:3], flush=True)
+            continue
         rows.append((name, prop, "detected" if rc == 1 else f"MISSED (exit {rc})", NEEDS.get(name, "")))
         print(rows[-1][:3], flush=True)
     if "--mutants" in sys.argv:
